@@ -32,15 +32,17 @@ theorem modes_exact :
 /-- S (string level): the URL `u` lies under the base URL `b` on a '/' boundary. -/
 def UnderUrl (b u : Bytes) : Prop := u = b ∨ ∃ r, u = rstripSlash b ++ 47 :: r
 
-/-- S: the class of locations a mode permits (xml_resource.py:318-330 read as a specification).
+/-- S: the class of locations a mode permits (xml_resource.py:318-333 read as a specification):
+    'local' and 'sandbox' admit only what is positively a local URL (after fix 600200c a string that
+    is neither local nor remote — it contains a line feed or starts with '<' — is refused).
     `b` is the normalised sandbox base URL when one is set. -/
 def Permitted (a : Allow) (b : Option Bytes) (u : Bytes) : Prop :=
   match a with
   | .all => True
   | .none => False
   | .remote => classify u ≠ .loc
-  | .loc => classify u ≠ .remote
-  | .sandbox => classify u ≠ .remote ∧ ∀ b', b = some b' → UnderUrl b' u
+  | .loc => classify u = .loc
+  | .sandbox => classify u = .loc ∧ ∀ b', b = some b' → UnderUrl b' u
 
 /-- `access_control` lets a URL through exactly when the mode permits its class — for every mode,
     every base and every URL string. -/
@@ -63,20 +65,20 @@ theorem access_iff_permitted (a : Allow) (b : Option Bytes) (u : Bytes) :
     simp only [accessControl, Permitted, isLocalUrl]
     by_cases hc : classify u = .loc <;> simp [hc]
   | loc =>
-    simp only [accessControl, Permitted, isRemoteUrl]
-    by_cases hc : classify u = .remote <;> simp [hc]
+    simp only [accessControl, Permitted, isLocalUrl]
+    by_cases hc : classify u = .loc <;> simp [hc]
   | sandbox =>
-    simp only [accessControl, Permitted, isRemoteUrl]
+    simp only [accessControl, Permitted, isLocalUrl]
     cases b with
-    | none => by_cases hc : classify u = .remote <;> simp [hc]
+    | none => by_cases hc : classify u = .loc <;> simp [hc]
     | some b' =>
-      by_cases hc : classify u = .remote
-      · simp [hc]
+      by_cases hc : classify u = .loc
       · by_cases hk : sandboxOk b' u = true
         · have := (hs b').mp hk
           simp [hc, hk, this]
         · have : ¬ UnderUrl b' u := fun h => hk ((hs b').mpr h)
           simp [hc, hk, this]
+      · simp [hc]
 
 example : accessControl .sandbox (some [47, 98]) (some [47, 98, 47, 99]) = .ok := by decide
 
@@ -84,10 +86,11 @@ example : accessControl .sandbox (some [47, 98]) (some [47, 98, 47, 99]) = .ok :
 theorem none_blocks_everything (b : Option Bytes) (u : Bytes) :
     accessControl .none b (some u) = .blockedNone := rfl
 
-/-- With `allow='local'` or `'sandbox'` every URL classified as remote is refused as remote. -/
+/-- With `allow='local'` or `'sandbox'` every URL that is not classified as local — remote, or
+    neither local nor remote — is refused as remote, whatever the base. -/
 theorem local_modes_block_remote (a : Allow) (h : a = .loc ∨ a = .sandbox) (b : Option Bytes)
-    (u : Bytes) (hu : classify u = .remote) : accessControl a b (some u) = .blockedRemote := by
-  rcases h with rfl | rfl <;> simp [accessControl, isRemoteUrl, hu]
+    (u : Bytes) (hu : classify u ≠ .loc) : accessControl a b (some u) = .blockedRemote := by
+  rcases h with rfl | rfl <;> simp [accessControl, isLocalUrl, hu]
 
 /-- With `allow='remote'` every URL classified as local is refused as local. -/
 theorem remote_blocks_local (b : Option Bytes) (u : Bytes) (hu : classify u = .loc) :
